@@ -12,13 +12,13 @@ Lemma link_reset z a f : run_member z model_table MReset a f = Some (m_reset f).
 Proof. frames f. Qed.
 Lemma link_dcsin z a f : run_member z model_table MDcsin a f = Some (m_default_construct_storage_if_needed f).
 Proof. frames f. Qed.
-Lemma link_emplace z v f : run_member z model_table MEmplace (ret v) f = Some (m_emplace v f).
+Lemma link_emplace z v f : run_member z model_table MEmplace (vval v) f = Some (m_emplace v f).
 Proof. frames f. Qed.
-Lemma link_assign_value z v f : run_member z model_table MAssignValue (ret v) f = Some (m_assign_value v f).
+Lemma link_assign_value z v f : run_member z model_table MAssignValue (vval v) f = Some (m_assign_value v f).
 Proof. frames f. Qed.
-Lemma link_ctor_value z v f : run_member z model_table MCtorValue (ret v) f = Some (m_ctor_value v f).
+Lemma link_ctor_value z v f : run_member z model_table MCtorValue (vval v) f = Some (m_ctor_value v f).
 Proof. frames f. Qed.
-Lemma link_make_optional z v f : run_member z model_table MMakeOptional (ret v) f = Some (m_emplace v f).
+Lemma link_make_optional z v f : run_member z model_table MMakeOptional (vval v) f = Some (m_emplace v f).
 Proof. frames f. Qed.
 Lemma link_ctor_copy z a f : run_member z model_table MCtorCopy a f = Some (m_ctor_copy (fixed_cfg z) f).
 Proof. frames f. Qed.
@@ -81,3 +81,11 @@ Proof.
   intro H. destruct o as [h'|]; [|reflexivity]. unfold is_same. rewrite H.
   change (has_eq 4) with false. rewrite andb_false_r. reflexivity.
 Qed.
+
+(* value operations whose argument is the payload of another (non-const) wrapper *)
+Lemma link_assign_deref z rv f :
+  run_member z model_table MAssignValue (vderef z rv) f = Some (m_assign_from (read_value z Other false) f).
+Proof. destruct rv; frames f. Qed.
+Lemma link_emplace_deref z rv f :
+  run_member z model_table MEmplace (vderef z rv) f = Some (m_emplace_from (read_value z Other rv) f).
+Proof. destruct rv; frames f. Qed.
